@@ -2,8 +2,9 @@
 
 proof         : coq/Props/C18.v over coq/Model/Lint.v (transliteration of lint_script and its three helpers) and the
                 interpreter model: totality (the KeyError outcome is unreachable), unknown-label / redefinition exactness,
-                the unknown-label warning <-> the runtime error of a taken jump, and soundness of acting on a warning
-                (simulation through the interpreter model).
+                the unknown-label warning <-> the runtime error of a taken jump, and soundness of acting on a warning by a
+                simulation through the interpreter model (unused label deletion, unused variable / argument renaming: both
+                directions; pointless statement deletion: partial).
 direct oracle : on the IMPLEMENTATION, independent of the Coq model: lint_script never raises on a schema-valid model, leaves
                 the model object unchanged (deep copy), answers the same twice; unknown-label and redefinition warnings equal
                 the statically computed sets (harness reference below); every dangling jump, forced to be taken, raises
